@@ -90,13 +90,16 @@ func NamedSubtype(n string, v interface{}, st string) Arg {
 		return Named(n, v)
 	}
 
+	// Lowercase the name once, here: the returned Arg may be applied by
+	// several calls at the same time and must not write to what it captures.
+	n = strings.ToLower(n)
+
 	return func(a *argBuilder) error {
 		rv := reflect.ValueOf(v)
 		if !rv.IsValid() {
 			return nil
 		}
 
-		n = strings.ToLower(n)
 		if a.namedSub[n] == nil {
 			a.namedSub[n] = map[string]reflect.Value{}
 		}
